@@ -41,7 +41,9 @@ impl Model {
                 // (relaxation R4: only while the bind was being maintained, i.e. needed when this
                 // stabilise started; a bind that was unnecessary and is re-connected in this round
                 // cannot have invalidated its old nodes before the scheduler reached them)
-                if self.nodes[*h].invalid_since == Some(round) && self.nodes[b].gen.map_or(false, |cg| cg > g) && self.nodes[b].lc_last_run == Some(round) && self.cone_start.contains(&b) {
+                // (and not in a round in which the bind itself was dropped by everything that needed
+                // it before it was picked up again: while it is unnecessary nothing maintains its nodes)
+                if self.nodes[*h].invalid_since == Some(round) && self.nodes[b].gen.map_or(false, |cg| cg > g) && self.nodes[b].lc_last_run == Some(round) && self.cone_start.contains(&b) && !self.lost_necessity.contains(&b) {
                     viol!(self, *pos, "C03", "superseded-node-ran", "node {} built by run {} of bind {} was computed in the stabilise in which the bind's input changed", h, g, b);
                 }
             }
@@ -51,7 +53,7 @@ impl Model {
             if let (RK::BMap { l, .. }, Some((b, g))) = (&self.nodes[*h].rk, self.nodes[*h].scope) {
                 // only when the bind re-ran in this very round: under a non-equality cutoff on the bind's
                 // input a maintained closure legitimately keeps an older captured value
-                if self.cone_start.contains(&b) && !self.nodes[b].invalid && self.nodes[b].lc_last_run == Some(round) && self.nodes[b].gen.map_or(false, |cg| cg > g) {
+                if self.cone_start.contains(&b) && !self.lost_necessity.contains(&b) && !self.nodes[b].invalid && self.nodes[b].lc_last_run == Some(round) && self.nodes[b].gen.map_or(false, |cg| cg > g) {
                     if let RK::Bind { lhs, .. } = &self.nodes[b].rk {
                         let lv = self.val(*lhs);
                         if lv.is_some() && lv != Some(MV::I(*l)) {
@@ -210,6 +212,7 @@ impl Model {
         }
         self.phase = Phase::Outside;
         self.transient.clear();
+        self.lost_necessity.clear();
         for o in self.obs.iter_mut() {
             o.last_seen = None;
         }
